@@ -10,6 +10,10 @@ import sys, warnings; warnings.simplefilter('ignore')
 import formulas
 F = formulas.get_functions()
 kind, cex = %r, %r
+def scal(v):
+    import numpy as np
+    v = np.ravel(v)[0] if isinstance(v, np.ndarray) else v
+    return v if isinstance(v, (int, float)) and not isinstance(v, bool) else str(v)
 def excel_ymd(n):
     import datetime
     if n == 0: return (1900, 1, 0)
@@ -24,9 +28,9 @@ bad = None
 if kind == 'serial':
     n = cex['n']
     if 0 <= n <= 2958465:
-        got = tuple(int(F[k](n)) for k in ('YEAR', 'MONTH', 'DAY'))
-        back = F['DATE'](*got)
-        if got != excel_ymd(n) or int(back) != n:
+        got = tuple(scal(F[k](n)) for k in ('YEAR', 'MONTH', 'DAY'))
+        back = scal(F['DATE'](*got)) if all(isinstance(v, (int, float)) for v in got) else None
+        if got != excel_ymd(n) or back != n:
             bad = 'serial %%d -> %%r (Excel %%r) -> DATE %%r' %% (n, got, excel_ymd(n), back)
     else:
         got = F['YEAR'](n)
@@ -36,25 +40,25 @@ elif kind == 'norm':
     y, m, d = cex['y'], cex['m'], cex['d']
     tot = y * 12 + (m - 1); yy, mm = divmod(tot, 12); mm += 1
     want = excel_serial_first(yy, mm) + d - 1 if 1 <= yy <= 9999 else None
-    got = F['DATE'](y, m, d)
+    got = scal(F['DATE'](y, m, d))
     if want is None or not (0 <= want <= 2958465):
         if str(got) != '#NUM!': bad = 'DATE%%r = %%r, expected #NUM!' %% ((y, m, d), got)
-    elif str(got) == '#NUM!' or int(got) != want:
+    elif got != want:
         bad = 'DATE%%r = %%r, Excel calendar arithmetic gives %%d' %% ((y, m, d), got, want)
 elif kind == 'weekday':
     n, mode = cex['n'], cex.get('mode', cex.get('k', 1))
-    a, b = F['WEEKDAY'](n, mode), F['WEEKDAY'](n + 1, mode)
+    a, b = scal(F['WEEKDAY'](n, mode)), scal(F['WEEKDAY'](n + 1, mode))
     lo, hi = (0, 6) if mode == 3 else (1, 7)
     valid_mode = mode in (1, 2, 3) or 11 <= mode <= 17
     if not valid_mode or not (0 <= n <= 2958465):
         if str(a) != '#NUM!': bad = 'WEEKDAY(%%d,%%d) = %%r, expected #NUM!' %% (n, mode, a)
-    elif str(a) == '#NUM!' or not (lo <= a <= hi) or (n < 2958465 and b != (lo if a == hi else a + 1)):
+    elif isinstance(a, str) or not (lo <= a <= hi) or (n < 2958465 and b != (lo if a == hi else a + 1)):
         bad = 'WEEKDAY(%%d..%%d, %%d) = %%r, %%r' %% (n, n + 1, mode, a, b)
 elif kind == 'time':
     h, m, s = cex['h'], cex['m'], cex['s']
     t = F['TIME'](h, m, s)
-    got = (F['HOUR'](t), F['MINUTE'](t), F['SECOND'](t))
-    if tuple(int(v) for v in got) != (h, m, s):
+    got = tuple(scal(F[k](t)) for k in ('HOUR', 'MINUTE', 'SECOND'))
+    if got != (h, m, s):
         bad = 'TIME(%%d,%%d,%%d) reads back as %%r' %% (h, m, s, got)
 if bad:
     print('REPRODUCED:', bad); sys.exit(1)
@@ -177,6 +181,17 @@ def run(tier, seed):
         s = src.replace('__LO__', '0').replace('__HI__', '3999')
         h = Harness(ck, 'c20_roman_domain', s); hs.append(h)
         batch.add(h, 120, only=['roman_domain_ok'])
+        bsrc = open(os.path.join(ROOT, 'harness', 'c20_base.py')).read()
+        for base in (2, 8, 16):
+            k = {2: 9, 8: 29, 16: 39}[base]
+            offs = [0, -256, (1 << k) - 256, -(1 << k) - 256] if base != 2 else [-600, 88]
+            if not quick:
+                offs += [rnd.randrange(-(1 << k), (1 << k) - 512) for _ in range(12)]
+            for off in offs:
+                s2 = bsrc.replace('__BASE__', str(base)).replace('__OFFSET__', str(off))
+                h = Harness(ck, 'c20_base%d_%s' % (base, str(off).replace('-', 'm')), s2); hs.append(h)
+                batch.add(h, 170, only=['base_window_ok'],
+                          bounds='real digit strings, base %d, n in %d..%d (boolean selectors, bounded exhaustive)' % (base, off, off + 511))
         batch.run()
     finally:
         for h in hs:
